@@ -388,6 +388,27 @@ CHECKS['C12'] = {
     'level_note': 'Trusted: IEEE double arithmetic being exact on dyadic values. Not covered: non-dyadic gains, inputs outside the alphabets, depths beyond the bound for neuron/fuzzy.',
 }
 
+
+def c13_jobs(tier):
+    src = ['src/mf.c', 'src/fuzzy.c', 'src/pid_fuzzy.c', 'src/pid.c', 'src/math.c', 'src/a.c']
+    jobs = grid_jobs('mfz-f64', 'harness/mfz.cpp', src, tier, 8)
+    jobs += grid_jobs('mfz-f32', 'harness/mfz.cpp', src, tier, 4, defs=['-DA_SIZE_REAL=4'])
+    jobs += grid_jobs('mfz-f64-asan', 'harness/mfz.cpp', src, 'quick', 4, san='asan')
+    return jobs
+
+
+CHECKS['C13'] = {
+    'title': 'membership functions, fuzzy operators and gain scheduling stay within range', 'level': 'exploration', 'engine': 'grid', 'jobs': c13_jobs,
+    'rule': ('bounded-exhaustive enumeration against an independent long-double reference of the documented shapes. Membership functions: all 13 kinds; EVERY parameter tuple a<=b<=c<=d from {-2,-1,-1/2,0,1,1.5,3} INCLUDING ties for tri/trap/lins/linz, non-zero widths for the smooth kinds (3 widths x 7 centres, bell exponents 1..3, slopes +-1,+-4), equal slopes and ordered centres for dsig; '
+             'x = every break point, one ulp on either side, quarter points between break points, +-7.5, +-1e3. Per evaluation: value in [0,1] and not NaN, equal to the documented piecewise shape (4 ulp piecewise, 64 ulp transcendental; the reference is continuous, so the +-1 ulp points check continuity), exactly 1 on the core (incl. a peak that coincides with a foot), flank monotonicity between neighbouring lattice points, dispatcher == specific function (also for the terminator and out-of-range kinds), s+z == 1 and lins+linz == 1. '
+             'Operators: all pairs from {0,1/16,...,1}^2 for the seven operators: range, commutativity, monotone in each argument, cap <= min, cup >= max, the compensatory operator between algebraic product and algebraic sum, boundary cases at 0 and 1, definition, not involutive, selector. '
+             'Gain scheduling: 6 rule bases (incl. the degenerate shoulder triangles of test/pid_fuzzy.h, 3 simultaneously active sets, gaussian/bell sets) x 7 operators x a 41x41 (81x81 thorough) (e, ec) lattice spanning beyond the universe: corrections equal the weighted mean of the active consequents, lie between their min and max, stay finite when the total firing strength is zero, equal the base gains when no rule is active; scratch buffer of exactly A_PID_FUZZY_BFUZZ(active) bytes between canaries.'),
+    'assumptions': ['a set is active when its degree exceeds the real type epsilon (the controller\'s own threshold)', 'the compensatory operator a_fuzzy_equ is neither an intersection nor a union; it is bounded by the algebraic product and sum, not by min/max'],
+    'design_ref': '§4.C13', 'technique': 'bounded-exhaustive enumeration of parameter tuples (ties included) x abscissa lattices, operator pair grids and (e, ec) lattices against an independent reference',
+    'level_text': 'Every branch constant of the 13 membership functions becomes lattice points at, just below and just above it, for every ordered parameter tuple including all ties; the operators are decided on a 17x17 grid; the scheduled gains are compared with an independent mean-of-centres reference on a dense (e, ec) lattice for every operator and six rule bases.',
+    'level_note': 'Trusted: long double libm for the reference shapes. Not covered: parameter values and membership tables outside the enumerated families.',
+}
+
 # ---------------------------------------------------------------- manifest texts
 CHECKS['C01'].update({
     'design_ref': '§4.C01', 'technique': 'explicit-state BFS to a fixpoint over the real src/avl.c (size-bounded, unbounded history length), lock-step reference set, API-replay conformance of every state',
